@@ -86,7 +86,7 @@ def sweep(ctx, reps, thorough, do_model=True):
     for name, cfg in STRATS:
         for kind in loaders.KINDS:
             for data in fl:
-                if not thorough and rng.random() < 0.55:
+                if not thorough and rng.random() < 0.2:
                     continue
                 for _ in range(reps):
                     p = rng.choice([0.2, 0.6, 1.0])
@@ -100,7 +100,7 @@ def search(ctx):
 
 def run(ctx) -> int:
     proof = common.proof_stage(ctx.pid)
-    sweep(ctx, 3 if ctx.thorough else 1, ctx.thorough)
+    sweep(ctx, 3 if ctx.thorough else 2, ctx.thorough)
     return common.decide(ctx, proof, RULE, search=search,
                          assumptions=["the two rewriting strategies and the experimental move touch only parts/reducible: monitored on the real code, not proved"])
 
